@@ -76,7 +76,7 @@ def run(ctx):
     n = 450 if ctx.tier == "quick" else 6000
     done = 0
     while done < n and ctx.time_left() > 15:
-        batch = gen_valid_graphs(ctx, min(150, n - done), max_demes=6)
+        batch = gen_valid_graphs(ctx, min(150, n - done), max_demes=6, corpus=True)
         done += len(batch)
         one_batch(ctx, [g for _, g, _ in batch], "generator")
         isl = []
